@@ -115,6 +115,8 @@ def cases(seed, tier="quick"):
         ("output-of-service", {"zinoma.yml": yml({"s": {"service": "sleep 30"}, "a": B("a", input=["s.output"])})}, [["a"]], "X.output of a service"),
         ("output-of-aggregate", {"zinoma.yml": yml({"x": B("x", output=OUT), "g": {"dependencies": ["x"]}, "a": B("a", input=["g.output"])})}, [["a"]], "X.output of an aggregate"),
         ("output-of-service-also-dep", {"zinoma.yml": yml({"s": {"service": "sleep 30"}, "a": B("a", dependencies=["s"], input=["s.output"])})}, [["a"]], "X.output of a service that is also listed under dependencies"),
+        ("output-of-aggregate-reached-first", {"zinoma.yml": yml({"x": B("x", output=OUT), "group": {"dependencies": ["x"]}, "report": B("report", input=["group.output"]), "all": {"dependencies": ["group", "report"]}})}, [["all"], ["group", "report"], ["--clean", "all"]], "X.output of an aggregate that was already reached through a plain dependency"),
+        ("output-of-service-reached-first", {"zinoma.yml": yml({"srv": {"service": "sleep 30"}, "user": B("user", dependencies=["srv"]), "report": B("report", input=["srv.output"]), "all": {"dependencies": ["user", "report"]}})}, [["all"], ["user", "report"]], "X.output of a service that was already reached through a plain dependency"),
         ("broken-in-import", {"zinoma.yml": yml({"a": B("a", dependencies=["lib::l"])}, name="root", imports={"lib": "lib"}), "lib/zinoma.yml": yml({"l": B("l", dependencies=["missing"])}, name="lib")}, [["a"]], "an unknown target referenced from an imported project"),
     ]
     for (n, files, reqs, why) in rej9:
@@ -203,5 +205,8 @@ def cases(seed, tier="quick"):
     clash = {"zinoma.yml": yml({"gen": B("gen"), "api": B("root-api", dependencies=["gen", "api::build"])}, name="app", imports={"api": "api"}), "api/zinoma.yml": yml({"build": B("api-build"), "deploy": B("api-deploy")}, name="api")}
     out.append(C("c19-target-named-like-project", accepted_runs("C19", clash, ["api"], ["root-api", "gen", "api-build"], "the bare name `api` means the root target api (a loaded project happens to be called api too)"), "a root target named like an imported project"))
     out.append(C("c19-target-named-like-project-both", accepted_runs("C19", clash, ["api", "app::api"], ["root-api", "gen", "api-build"], "`api` and `app::api` are the same target"), "both spellings of it"))
+    samename = {"zinoma.yml": yml({"build": B("root-build", dependencies=["lib::build"]), "test": B("root-test", input=["lib::build.output"])}, imports={"lib": "lib"}), "lib/zinoma.yml": yml({"build": B("lib-build", output=OUT)}, name="lib")}
+    out.append(C("c19-unnamed-root-depends-on-same-name", accepted_runs("C19", samename, ["build"], ["root-build", "lib-build"], "an unnamed root's `build` depends on lib::build: two different targets"), "unnamed root, same target name in the import"))
+    out.append(C("c19-unnamed-root-output-of-same-name", accepted_runs("C19", samename, ["test"], ["root-test", "lib-build"], "an unnamed root's target takes lib::build.output"), "unnamed root, X.output of a same-named imported target"))
     out.append(C("c19-from-own-dir", accepted_runs("C19", two, ["t"], ["lib-t", "lib-helper"], "from lib's own directory the bare name is lib's target", cwd="lib"), "imported project as root"))
     return out
